@@ -7,8 +7,8 @@ namespace BreezyVerif.C52
 /-! ### layouts -/
 
 /-- `apply` ran to its end -/
-theorem applyFlags_ok (l : Loc) (f : Flags) (force : Bool) (h : (applyFlags l f force).2 = none) :
-    (applyFlags l f force).1 =
+theorem applyFlags_ok (v : Variant) (l : Loc) (f : Flags) (force : Bool) (h : (applyFlags v l f force).2 = none) :
+    (applyFlags v l f force).1 =
       stDropRepo f l.sharedAbove (stBind f (stUnbind f (stTree f (stBranch f (stRepo f l))))) := by
   unfold applyFlags at h ⊢
   repeat' split
@@ -20,11 +20,12 @@ theorem applyFlags_ok (l : Loc) (f : Flags) (force : Bool) (h : (applyFlags l f 
     | (rename_i c3 c2 c1 c; simp [c3, c2, c1, c] at h; done)
     | (rename_i c4 c3 c2 c1 c; simp [c4, c3, c2, c1, c] at h; done)
     | (rename_i c5 c4 c3 c2 c1 c; simp [c5, c4, c3, c2, c1, c] at h; done)
+    | (rename_i c6 c5 c4 c3 c2 c1 c; simp [c6, c5, c4, c3, c2, c1, c] at h; done)
 
-theorem applyFlags_err (l : Loc) (f : Flags) (force : Bool) :
-    (applyFlags l f force).2 ≠ some .already ∧ (applyFlags l f force).2 ≠ some .notSupported ∧
-    (((applyFlags l f force).2 = some .uncommittedChanges ∨ (applyFlags l f force).2 = some .unsyncedBranches) →
-      (applyFlags l f force).1 = l) := by
+theorem applyFlags_err (v : Variant) (l : Loc) (f : Flags) (force : Bool) :
+    (applyFlags v l f force).2 ≠ some .already ∧ (applyFlags v l f force).2 ≠ some .notSupported ∧
+    (((applyFlags v l f force).2 = some .uncommittedChanges ∨ (applyFlags v l f force).2 = some .unsyncedBranches) →
+      (applyFlags v l f force).1 = l) := by
   unfold applyFlags
   repeat' split
   all_goals simp
@@ -46,8 +47,8 @@ theorem final_layout (l : Loc) (t : Target) (f : Flags) (h : factory l t = .ok f
     cases hb : l.branch <;> cases hr : l.repo <;> cases ht : l.tree <;> cases ha : l.sharedAbove <;> simp_all <;>
       (subst h; simp [layoutIs, stDropRepo, stBind, stUnbind, stTree, stBranch, stRepo, hb, hr, ht, ha])
 
-theorem layout_ok (t : Target) (force : Bool) (l : Loc) (h : (reconfigure t force l).2 = none) :
-    layoutIs t (reconfigure t force l).1 = true := by
+theorem layout_ok (v : Variant) (t : Target) (force : Bool) (l : Loc) (h : (reconfigure v t force l).2 = none) :
+    layoutIs t (reconfigure v t force l).1 = true := by
   unfold reconfigure at h ⊢
   cases hf : factory l t with
   | error e => simp [hf] at h
@@ -55,12 +56,12 @@ theorem layout_ok (t : Target) (force : Bool) (l : Loc) (h : (reconfigure t forc
     simp only [hf] at h ⊢
     by_cases ha : f.any = true
     · simp only [ha, if_true] at h ⊢
-      rw [applyFlags_ok l f force h]
+      rw [applyFlags_ok v l f force h]
       exact final_layout l t f hf
     · simp [ha] at h
 
-theorem layout_already (t : Target) (force : Bool) (l : Loc) :
-    (reconfigure t force l).2 = some .already ↔ layoutIs t l = true := by
+theorem layout_already (v : Variant) (t : Target) (force : Bool) (l : Loc) :
+    (reconfigure v t force l).2 = some .already ↔ layoutIs t l = true := by
   obtain ⟨f, hf⟩ := factory_never_unsupported l t
   have hiff := factory_any_iff l t f hf
   unfold reconfigure
@@ -68,15 +69,15 @@ theorem layout_already (t : Target) (force : Bool) (l : Loc) :
   by_cases ha : f.any = true
   · simp only [ha, if_true]
     constructor
-    · intro h; exact absurd h (applyFlags_err l f force).1
+    · intro h; exact absurd h (applyFlags_err v l f force).1
     · intro h; rw [← hiff] at h; rw [ha] at h; cases h
   · have ha' : f.any = false := by simpa using ha
     simp only [ha', Bool.false_eq_true, if_false, true_iff]
     exact hiff.mp ha'
 
-theorem refusal_same (t : Target) (force : Bool) (l : Loc) (e : Err) (h : (reconfigure t force l).2 = some e)
+theorem refusal_same (v : Variant) (t : Target) (force : Bool) (l : Loc) (e : Err) (h : (reconfigure v t force l).2 = some e)
     (he : e = .already ∨ e = .notSupported ∨ e = .uncommittedChanges ∨ e = .unsyncedBranches) :
-    (reconfigure t force l).1 = l := by
+    (reconfigure v t force l).1 = l := by
   unfold reconfigure at h ⊢
   cases hf : factory l t with
   | error e' => rfl
@@ -84,7 +85,7 @@ theorem refusal_same (t : Target) (force : Bool) (l : Loc) (e : Err) (h : (recon
     simp only [hf] at h ⊢
     by_cases ha : f.any = true
     · simp only [ha, if_true] at h ⊢
-      have := applyFlags_err l f force
+      have := applyFlags_err v l f force
       rcases he with he | he | he | he <;> subst he
       · exact absurd h this.1
       · exact absurd h this.2.1
